@@ -42,7 +42,7 @@ impl Prop for C05 {
         "C05"
     }
     fn rule(&self) -> String {
-        "graphs of all 8 kinds, n in 0..=8 (oracle: explicit enumeration of all shortest paths per ordered pair and counting those with v strictly inside) n in 9..=30 and boundary sizes up to 255 (oracle: sigma products on the Floyd-Warshall matrix), and one case in 4300 with a procedurally generated sparse graph of 300..3000 nodes (oracle: an independent Brandes implementation, itself compared with the brute-force oracle on every small case), shapes and shuffled insertion order as C04; weight modes unweighted / positive dyadic / tie-rich; every graph is evaluated in all of weighted x normalized that apply; tolerance 1e-9 relative. Exhaustive block: all graphs on <= 3 nodes of the single-edge kinds. Non-trivial = some node has non-zero betweenness and some pair has >= 2 shortest paths; distinct = distinct serialised case.".into()
+        "graphs of all 8 kinds, n in 0..=8 (oracle: explicit enumeration of all shortest paths per ordered pair and counting those with v strictly inside) n in 9..=30 and boundary sizes up to 255 (oracle: sigma products on the Floyd-Warshall matrix), and one case in 4300 with a procedurally generated sparse graph of 300..3000 nodes (oracle: an independent Brandes implementation, itself compared with the brute-force oracle on every small case), shapes and shuffled insertion order as C04; weight modes unweighted / positive dyadic / tie-rich; every graph is evaluated in all of weighted x normalized that apply; tolerance 1e-9 relative. Exhaustive block: all graphs on <= 3 nodes of the single-edge kinds. Non-trivial = some node has non-zero betweenness and some pair has >= 2 shortest paths; distinct = distinct serialised case. Name-type independence: for every graph of <= 12 nodes and one in eight up to 64 (34 for path-returning calls) the same calls are repeated with a user-defined node-name type (lossy Display, heavily colliding Hash, Ord unrelated to insertion order) and must give the same order-independent results as with String names (floats within 1e-9).".into()
     }
     fn assumptions(&self) -> Vec<String> {
         vec!["positive weights; paths are node sequences (parallel edges do not multiply path counts)".into(), "float comparison with relative tolerance 1e-9 (the quotient sigma_sv*sigma_vt/sigma_st is not exact)".into()]
@@ -132,6 +132,7 @@ impl Prop for C05 {
         if case.shape == 9 && n >= 123 {
             out.class("more_than_2^64_shortest_paths");
         }
+        crate::altkey::maybe_check(&ng, crate::altkey::Group::Betweenness, case.perm as u64, &mut out);
         out.nontrivial = any_tie && any_nonzero;
         out
     }
